@@ -272,6 +272,14 @@ def build_preload(name="vfdelay", src=None):
                   "preload " + name)
 
 
+def build_tool(name, src, libs=""):
+    """small stand-alone helper program (plain C, no sanitizer)"""
+    lines = ["rule cc", "  command = gcc -O1 -o $out $in %s" % libs,
+             "build %s: cc %s" % (name, src)]
+    os.makedirs(flavour_dir("fast"), exist_ok=True)
+    return _ninja("fast", "tool_" + name, lines, name, "tool " + name)
+
+
 # ----------------------------------------------------------------------------
 # running monitors
 # ----------------------------------------------------------------------------
